@@ -395,6 +395,24 @@ def rule_event_numbers(ck):
         else:
             o.fail('number of events to simulate is %s; it must be int(N_obs) for conditional tests and '
                    'int(numpy.random.poisson(forecast total)) for the L-test' % [sym.show(N.nf(a))[:70] for a in phi_alternatives(e)])
+    # every synthetic catalog gets its own draws: a random draw that feeds the simulator stands inside the simulation loop
+    for tq, sq in ((PE + '_poisson_likelihood_test', PE + '_simulate_catalog'), (BE + '_binary_likelihood_test', BE + '_simulate_catalog'),
+                   (BR + '_brier_score_test', BR + '_simulate_catalog')):
+        t = P.func(tq)
+        loops = {id(in_loop(c, t.node)): in_loop(c, t.node) for c in calls_in(P, t, sq) if in_loop(c, t.node) is not None}
+        o = ck.ob('C06-D7.loop', t, 'one simulator call per synthetic catalog', t.node)
+        if len(loops) != 1:
+            o.fail('the simulator is not called from one loop over the simulations')
+            continue
+        o.ok()
+        lp = list(loops.values())[0]
+        inside = {id(x) for x in ast.walk(lp)}
+        for d in [n for n in all_nodes(t) if isinstance(n, ast.Call) and (callee(P, t, n) or '') in DRAWS]:
+            oo = ck.ob('C06-D7.fresh', t, d, d)
+            (oo.ok('drawn anew for every synthetic catalog') if id(d) in inside else
+             oo.fail('`%s` is drawn once, before the simulation loop, and reused for every synthetic catalog: the catalogs no longer '
+                     'each carry their own draw (for the L-test all catalogs get the same Poisson number of events and the test '
+                     'distribution loses its number variability)' % u(d)[:60]))
     for tq, sq in ((BE + '_binary_likelihood_test', BE + '_simulate_catalog'), (BR + '_brier_score_test', BR + '_simulate_catalog')):
         t = P.func(tq)
         ex = Expander(P, t)
